@@ -13,7 +13,7 @@ from checks.c07 import to_wire, dbits
 PTYPES = ["INTE", "REAL", "DOUB", "CHAR", "LOGI", "CHARL"]
 
 
-def payload(step, widx, spec):
+def payload(step, widx, spec, dup=False):
     """arrays of one report-step write; contents are a function of (step, write index, position)
     so that a stale or misplaced step is recognisable"""
     tag = (step * 1000003 + widx * 7919) & 0x7FFFFFFF
@@ -23,7 +23,8 @@ def payload(step, widx, spec):
         {"name": "DOUBHEAD", "type": "DOUB", "data": [EC.bits64(float(step) + widx / 64.0), EC.bits64(-1.5e-300 * (widx + 1))]},
     ]
     for k, (t, n) in enumerate(spec):
-        name = "P%d_%s" % (k, t[:3])
+        # (dup: arrays of one step may share a name - one per aquifer, per LGR ... - and are then told apart by occurrence)
+        name = ("D_%s" % t[:3]) if dup else ("P%d_%s" % (k, t[:3]))
         if t == "INTE":
             d = [((tag + i * 31 + k) % 2 ** 32) - 2 ** 31 for i in range(n)]
         elif t == "REAL":
@@ -82,10 +83,10 @@ def fnv_array(a):
     return h
 
 
-def step_arrays(step, widx, spec, bare=False):
+def step_arrays(step, widx, spec, bare=False, dup=False):
     """bare: the stream for the report step is opened and closed without any array (only SEQNUM reaches the file) -
     what a run leaves that stops right after starting a step"""
-    return [{"name": "SEQNUM", "type": "INTE", "data": [step]}] + ([] if bare else payload(step, widx, spec))
+    return [{"name": "SEQNUM", "type": "INTE", "data": [step]}] + ([] if bare else payload(step, widx, spec, dup))
 
 
 @st.composite
@@ -102,8 +103,10 @@ def history_strategy(draw, big):
         cur_max = max(cur_max, s)
         nspec = draw(st.integers(0, 3))
         spec = []
+        dup = nspec >= 2 and draw(st.integers(0, 2)) == 0
+        t0 = draw(st.sampled_from(PTYPES))
         for _ in range(nspec):
-            t = draw(st.sampled_from(PTYPES))
+            t = t0 if dup else draw(st.sampled_from(PTYPES))
             if t == "CHAR":
                 n = draw(st.sampled_from([0, 1, 7, 105, 106, 211]) | st.integers(0, 230))
             elif t == "CHARL":
@@ -113,6 +116,8 @@ def history_strategy(draw, big):
                 n = draw(st.sampled_from([0, 1, 999, 1000, 1001, 2001]) | st.integers(0, 2600 if big else 1200))
             spec.append([t, n])
         w_ = {"step": s, "spec": spec}
+        if dup:
+            w_["dup"] = True
         if draw(st.integers(0, 7)) == 0:
             w_ = {"step": s, "spec": [], "bare": True}
         writes.append(w_)
@@ -223,7 +228,7 @@ class C08(Check):
         for widx, w in enumerate(case["writes"]):
             s = w["step"]
             spec = [tuple(x) for x in w["spec"]]
-            arrs = step_arrays(s, widx, spec, bool(w.get("bare")))
+            arrs = step_arrays(s, widx, spec, bool(w.get("bare")), bool(w.get("dup")))
             P.call("rst_write", dir=d, base=base, formatted=fmt, unified=True, seqnum=s,
                    arrays=wire(arrs[1:]))
             enc = EC.encode_formatted(arrs) if fmt else EC.encode_unformatted(arrs)
@@ -260,6 +265,9 @@ class C08(Check):
                 for a, g in zip(arrs_, got_arrs):
                     if "error" in g:
                         return V("history: ERst fails to read an array of a surviving step", [st_, a["name"], g["error"]])
+                    if g.get("by_occurrence_same") is not True:
+                        return V("history: an array read through (name, step, occurrence) differs from the same array read through its index",
+                                 {"step": st_, "array": a["name"], "occurrence": g.get("occurrence"), "error": g.get("by_occurrence_error")})
                     gd = g["data"]
                     if a["type"] == "DOUB":
                         gd = [dbits(x) for x in gd]
